@@ -541,6 +541,12 @@ namespace cds { namespace algo {
             */
             void wakeup_any()
             {
+                // The publication list may be walked only under the lock: compact_list() frees
+                // the records of finished threads. If the lock is busy, its owner cares about pending requests
+                if ( !m_Mutex.try_lock())
+                    return;
+                lock_guard l( m_Mutex, std::adopt_lock_t());
+
                 publication_record* pRec = m_pHead;
                 while ( pRec ) {
                     if ( pRec->nState.load( memory_model::memory_order_acquire ) == active
